@@ -77,9 +77,12 @@ def run_case(case: dict[str, Any], wd: Path) -> dict[str, Any]:
             for r in f.records:
                 if "temp" not in r.vars or not len(r.pid):
                     continue
-                want = 3.0 + 0.5 * np.round(np.asarray(r.vars["X"], float)) - 0.25 * np.round(np.asarray(r.vars["Y"], float))
-                sit["forcing_derived_values_checked"] = sit.get("forcing_derived_values_checked", 0) + len(want)
-                if np.max(np.abs(np.asarray(r.vars["temp"], float) - want)) > 1e-6 and len(V) < 2:
+                Xr, Yr = np.asarray(r.vars["X"], float), np.asarray(r.vars["Y"], float)
+                want = 3.0 + 0.5 * np.round(Xr) - 0.25 * np.round(Yr)
+                # positions exactly on a cell edge (k + 0.5): which of the two cells owns them is not settled by the property; not judged
+                edge = (np.abs(Xr - np.floor(Xr) - 0.5) < 1e-9) | (np.abs(Yr - np.floor(Yr) - 0.5) < 1e-9)
+                sit["forcing_derived_values_checked"] = sit.get("forcing_derived_values_checked", 0) + int((~edge).sum())
+                if np.any(~edge) and np.max(np.abs(np.asarray(r.vars["temp"], float) - want)[~edge]) > 1e-6 and len(V) < 2:
                     V.append(C.viol(f"{f.path.name} record at {r.time}: forcing-derived variable temp = {np.asarray(r.vars['temp'])[:5].tolist()}, the forcing field in the cells of the record's "
                                     f"own positions holds {want[:5].tolist()}", params=case))
     sit[case["layout"]] = 1
